@@ -82,6 +82,17 @@
     `Table.walkCols_stmtCols`), and the lift from the table's column list to the database (`execAll_of_colExecAll`).
     Proofs/SpecCols.lean, Proofs/SpecColsDb.lean.
 
+  * `table_on_reference_engine` — **columns and indexes composed on the reference engine**: under the hypotheses of
+    `columns_on_reference_engine`, for a table whose primary key is the same on both sides and outside the recorded
+    finding `index-redefined-old-columns-dropped`, the statements `MigrationColumnUp` and then `MigrationIndexUp` print
+    for the diffed record, executed by `Spec.execAll` on the old schema, are well-formed at every step; afterwards the
+    table has the new side's columns (`colsEquiv`), the new side's indexes up to order and its primary key, and every
+    other table is untouched.  (Proofs/SpecTable: DROP COLUMN's effect on the index list and the key through the column
+    statements, `execAll_of_colExecAll_full`; `dropCols_idxs` turns it into `prune dc`; each CREATE / DROP INDEX on
+    `Spec.exec` is a step of the abstract index machine, `exec_idx_step`, a created index being non-empty and within the
+    table's columns by `Spec.execAll_wf`; no PRIMARY KEY statement by `equal_primary_key_untouched`; the key names
+    columns of its table in every reachable schema, `Spec.execAll_pkin`, so no key column is dropped.)
+
   * `equal_primary_key_untouched` — likewise an unchanged primary key declared at table level gets no ADD / DROP
     PRIMARY KEY, whatever dropped-column list the index walk is called with (reader fidelity on table-level keys,
     C05.primary_key_table_level).
@@ -93,8 +104,8 @@
     loops of `Migration.Diff` leave, and the table-level content of each printer).
 
   Missing for `Statement_partial`: a changed primary key (recorded finding `pk-changed`), COMMENT options, and the same
-  lift to `Spec.exec` for the index / foreign-key / table clauses (proved on their abstract machines) and for all
-  tables at once.  Those parts are covered by the correspondence run and
+  lift to `Spec.exec` for the foreign-key and table clauses (proved on their abstract machines) and for all tables at
+  once.  Those parts are covered by the correspondence run and
   by the executable predicate `Spec.c01` evaluated on the implementation's printed migration on every check.
 -/
 import SqlizeModel.Abs.Columns
@@ -105,6 +116,7 @@ import SqlizeModel.Proofs.EndToEndElems
 import SqlizeModel.Proofs.Untouched
 import SqlizeModel.Proofs.Changed
 import SqlizeModel.Proofs.SpecColsDb
+import SqlizeModel.Proofs.SpecTable
 import SqlizeModel.Proofs.TablesClause
 import SqlizeModel.Impl.Api
 import SqlizeModel.Spec.Scope
@@ -280,6 +292,26 @@ example : ∃ d dbO dbN, loadAndDiff {} exOldCE exNewCE = .ok d ∧ execAll true
       [some false, some true] :=
   ⟨_, _, _, by rfl, by rfl, by rfl, by decide⟩
 
+/-- the column and index clauses of C01 composed on the reference engine -/
+theorem table_on_reference_engine (g : Globals) (hg : g.dialect = .mysql) (hio : g.ignoreOrder = false) (rc : Bool)
+    (old new : List Stmt) (dbO dbN : DB) (ho : old.all Stmt.elemSafe = true) (hn : new.all Stmt.elemSafe = true)
+    (hpo : old.all Stmt.plainOpts = true) (hpn : new.all Stmt.plainOpts = true)
+    (heo : execAll rc [] old = some dbO) (hen : execAll rc [] new = some dbN)
+    (d : Migration) (hd : loadAndDiff g old new = .ok d)
+    (t : String) (tbO tbN : TableSpec) (hfo : dbO.find t = some tbO) (hfn : dbN.find t = some tbN)
+    (hc : Abs.OrderCompatible tbN.colNames tbO.colNames) (hne : ∀ n ∈ tbN.colNames ++ tbO.colNames, n ≠ "")
+    (hncO : ∀ c ∈ tbO.cols, ∀ k ∈ c.opts, k.noComment = true)
+    (hncN : ∀ c ∈ tbN.cols, ∀ k ∈ c.opts, k.noComment = true)
+    (hpk : tbO.pk = tbN.pk)
+    (hredef : ∀ dc : List String, (∀ c ∈ dc, c ∉ tbN.colNames) →
+      ∀ s ∈ tbN.idxs, ∀ o ∈ tbO.idxs, o.name = s.name → o ≠ s → ∃ c ∈ o.cols, c ∉ dc) :
+    ∃ td ∈ d.tables, td.name = t ∧
+      ∃ cs dc is, td.migrationColumnUp g = .ok (cs, dc) ∧ td.migrationIndexUp g dc = .ok is ∧
+        ∃ db' tb', execAll false dbO (cs ++ is) = some db' ∧ db'.find t = some tb' ∧
+          colsEquiv tb'.cols tbN.cols = true ∧ tb'.idxs.Perm tbN.idxs ∧ tb'.pk = tbN.pk ∧
+          (∀ u, u ≠ t → db'.find u = dbO.find u) ∧ db'.map (·.name) = dbO.map (·.name) :=
+  table_spec_up g hg hio rc old new dbO dbN ho hn hpo hpn heo hen d hd t tbO tbN hfo hfn hc hne hncO hncN hpk hredef
+
 /-- table clause of C01 from scripts to printed statements (MySQL reader model) -/
 theorem tables_from_scripts (g : Globals) (hg : g.dialect = .mysql) (rc : Bool) (old new : List Stmt) (dbO dbN : DB)
     (ho : old.all Stmt.elemSafe = true) (hn : new.all Stmt.elemSafe = true)
@@ -438,5 +470,16 @@ example : (∀ c ∈ exCols, SimpleAction c.action) ∧ (∀ c ∈ exCols, c.nam
 example : Abs.emitUp (Abs.tagged ["z", "a", "b", "e", "d", "f"] ["a", "b", "c", "d"]) =
     [.addCol "z" none, .dropCol "c", .addCol "e" (some "b"), .addCol "f" (some "d")] := by decide
 example : Abs.OrderCompatible ["z", "a", "b", "e", "d", "f"] ["a", "b", "c", "d"] := by unfold Abs.OrderCompatible; decide
+
+-- non-vacuity of `table_on_reference_engine`: the pair of `indexes_with_dropped_columns` (`exOldD` / `exNewD` above: a
+-- column dropped, its index suppressed, one index dropped, one created, one kept), columns then indexes, on the engine
+example : ∃ d dbO dbN, loadAndDiff {} exOldD exNewD = .ok d ∧ execAll true [] exOldD = some dbO ∧ execAll true [] exNewD = some dbN ∧
+    (d.tables.map (fun t => match t.migrationColumnUp {} with
+      | .ok (cs, dc) => (match t.migrationIndexUp {} dc with
+        | .ok is => (execAll false dbO (cs ++ is)).map (fun db' => db'.equiv dbN)
+        | .error _ => none)
+      | .error _ => none)) = [some true] :=
+  ⟨_, _, _, by rfl, by rfl, by rfl, by decide⟩
+
 
 end Sqlize.C01
